@@ -14,6 +14,7 @@ RULE = ('corpus, then exhaustive at widths 0..8 (0..10 thorough): every value x 
         '0..bits+64 for bit/set_bit/byte/checked_byte, all operand pairs at widths 0..4 for and/or/xor; then structured cases over 37 '
         'widths: shared value classes plus top-limb-zero values, MAX, 2^k, 2^k-1, 2^k+1, all-ones low limbs, single-limb patterns at '
         'every limb position, values around powers of two for next_power_of_two, indices 0..BITS+64 and limb/byte boundaries; '
+        'at widths 64 and 128 the harness additionally compares the Uint result with the u64/u128 primitive operation (second oracle, outcome `native-oracle-mismatch`); '
         'non-trivial = width>0 and value non-zero; distinct by case hash')
 TRUSTED = ['word primitives (u64 leading_zeros/trailing_zeros/trailing_ones/count_ones/reverse_bits, !) are modelled by small Lean '
            'functions with proved specs; that the Rust intrinsics match them is checked only by the correspondence']
